@@ -371,6 +371,15 @@ def run(model, tier="quick"):
                   "remove: default price from the status price; delta clamped to the held liquidity; amounts moved to pending", fx, opaque=oq)
     effects_check(res, model, "UniLpMarket._add_liquidity_by_tick", REF_ADD,
                   "add: default price from the status price; wallet debited by the USED amounts; position keyed by the ticks", fx, opaque=oq)
+    # the market-level add path: explicit amounts (also an explicit ZERO) are what is offered; None alone means the balance
+    from . import uni_refs as _U
+    from .C09 import FX as _FX, OPQ as _OPQ
+    effects_check(res, model, "UniLpMarket.add_liquidity", _U.REF_ADD_PUBLIC,
+                  "add by price: offered amounts as given (None -> whole balance), usable ticks, used amounts reported", _FX + ["_add_liquidity_by_tick"],
+                  opaque=_OPQ + ["quote_price_pair_to_tick", "tick_to_price"], aliases=UNI_ALIASES)
+    effects_check(res, model, "UniLpMarket.add_liquidity_by_tick", _U.REF_ADD_BY_TICK_PUBLIC,
+                  "add by tick: offered amounts as given, explicit price / tick honoured", _FX + ["_add_liquidity_by_tick"],
+                  opaque=_OPQ + ["tick_to_sqrt_price_x96", "tick_to_price"], aliases=UNI_ALIASES)
     from ..rules.fresh import fresh_rule
     if "R-FRESH" not in res.rules:
         res.rules.append("R-FRESH")
